@@ -171,7 +171,7 @@ inline smooth::SO3d so3_of(const Rot3 & R)
   for (int i = 0; i < 4; ++i) g.coeffs()(i) = (double)q[i];  // (x, y, z, w), normalised in long double
   return g;
 }
-inline Eigen::Vector3d v3_of(const P3 & t) { return Eigen::Vector3d{(double)t[0], (double)t[1], (double)t[2]}; }
+inline Eigen::Vector3d v3_of(const P3 & t) { return Eigen::Vector3d{snap((double)t[0]), snap((double)t[1]), snap((double)t[2])}; }
 inline Eigen::Matrix3d hat3d(const Eigen::Vector3d & p)
 {
   Eigen::Matrix3d H;
